@@ -1,6 +1,7 @@
 package props
 
 import (
+	"go/types"
 	"strings"
 
 	"golang.org/x/tools/go/ssa"
@@ -342,5 +343,48 @@ func c05R4(p *engine.Prog, r *engine.Report) {
 	totalCostNoBypassRule(p, r, "C05-R5")
 	envResetPrecedesRule(p, r, "C05-R5")
 	chargedCostRule(p, r, "C05-R5")
+	c05R6(p, r, "C05-R6")
 	r.Floor("C05-R5", 2, "total cost + reset")
+}
+
+// c05R6: who a transaction is attributed to. Every address types.Sender / SenderFlipKey… return comes
+// from the recovery over (signature hash of THIS object, its signature) or from a memo kept on the
+// object itself; an answer taken from package-level state (a shared cache) must be looked up under a
+// key that depends on that signature hash — otherwise bytes copied from another transaction decide
+// whose funds are spent.
+func c05R6(p *engine.Prog, r *engine.Report, rule string) {
+	n := 0
+	for _, name := range []string{"Sender", "SenderPubKey", "SenderFlipKey", "SenderFlipKeysPackage"} {
+		f, _ := p.Func("blockchain/types", name)
+		if f == nil || f.Blocks == nil {
+			continue
+		}
+		r.Fn(engine.FuncName(f))
+		for _, ret := range engine.Returns(f) {
+			if len(ret.Results) == 0 {
+				continue
+			}
+			res := ret.Results[0]
+			sl := engine.BackSlice(res, engine.DefaultSlice)
+			usesGlobal, usesHash := "", false
+			for v := range sl {
+				if g, isG := v.(*ssa.Global); isG && g.Pkg != nil && engine.IsRepoPkg(g.Pkg.Pkg) {
+					if _, isFn := g.Type().Underlying().(*types.Pointer).Elem().Underlying().(*types.Signature); !isFn {
+						usesGlobal = g.Name()
+					}
+				}
+				if c, isC := v.(*ssa.Call); isC {
+					if o := engine.CalleeObj(&c.Call); o != nil && (o.Name() == "SignatureHash" || o.Name() == "signatureHash" || o.Name() == "ToSignatureBytes") {
+						usesHash = true
+					}
+				}
+			}
+			if usesGlobal == "" {
+				continue
+			}
+			n++
+			r.Check(usesHash, rule, uniq(r, name+"|an answer taken from shared state is keyed by the object's signature hash"), p.InstrPos(ret), "lookup depends on the signature hash", "the returned signer comes from package-level state ("+usesGlobal+") under a key that does not depend on the signature hash of this object (e.g. the signature bytes alone): a forged transaction carrying the signature of a recently seen one is attributed to that one's signer — it spends funds of an address that never signed it")
+		}
+	}
+	r.OK(rule, "blockchain/types|signers are recovered from (signature hash, signature) or a memo on the object", "", itoa(int64(n))+" returns fed by shared state")
 }
